@@ -184,7 +184,7 @@ def mk_case(ftype, path, passes, o, sizes, text, threads):
 
 class C13(Prop):
     ID = "C13"
-    THEOREMS = ["C13_bw_accept_iff", "C13_bb_accept_iff", "C13_position_independent", "C13_bb_position_independent", "C13_bw_text", "C13_bb_text", "C13_serial_eq_parallel_verdict", "C13_text_serial_eq_parallel", "C13_parse_u32", "C13_parse_line", "C13_split_fields", "C13_rtree_terminates", "C13_index_written", "C13_zoom_selection_terminates", "C13_writer_total", "C13_bb_accept_iff_file", "C13_bb_writer_total", "C13_bb_write_gen_verdict"]
+    THEOREMS = ["C13_bw_accept_iff", "C13_bb_accept_iff", "C13_position_independent", "C13_bb_position_independent", "C13_bw_text", "C13_bb_text", "C13_serial_eq_parallel_verdict", "C13_text_serial_eq_parallel", "C13_parse_u32", "C13_parse_line", "C13_split_fields", "C13_rtree_terminates", "C13_index_written", "C13_zoom_selection_terminates", "C13_writer_total", "C13_bb_accept_iff_file", "C13_bb_writer_total", "C13_bb_write_gen_verdict", "C13_parallel_text_file_verdict", "C13_bb_parallel_text_file_verdict"]
     NEED_BINS = True
     PER_CASE_TIMEOUT = 12.0
     RULE = ("texts rendered from 3 chromosomes x 3-5 items (and 1-4 x 1-6), bedGraph and BED; every violation class (overlap / start order, "
